@@ -142,7 +142,8 @@ RequiredOps ==
   {"find_he", "find_hf", "find_hf_ext", "find_hf_he", "find_he_in_cell", "find_hf_in_cell",
    "vv", "voh", "vih", "ve", "vhf", "vf", "vc", "hehf", "hef", "hec", "ehf", "ef", "ec", "hfhe", "hfe", "hfv",
    "fv", "fhe", "fe", "cv", "cv_r", "che", "ce", "chf", "cf", "cc", "bhfhf", "bary_c", "bary_f", "normal",
-   "it_v", "it_e", "it_he", "it_f", "it_hf", "it_c", "bit_v", "bit_he", "bit_e", "bit_hf", "bit_f", "bit_c"}
+   "it_v", "it_e", "it_he", "it_f", "it_hf", "it_c", "bit_v", "bit_he", "bit_e", "bit_hf", "bit_f", "bit_c",
+   "halfface", "opp_hf", "next_he", "prev_he", "adj_hf", "n_verts_in_cell", "hf_verts"}
 
 (* ------------------------------ the alphabet --------------------------- *)
 (* every const query with every in-contract argument over the live         *)
@@ -155,12 +156,23 @@ Alphabet(M, mtype) ==
       hasCell(hf) == IncCell(M, hf) # -1
       big(hf) == Len(HFHes(M, hf)) >= 3
       globals == Ops1(<<"counts", "it_v", "it_e", "it_he", "it_f", "it_hf", "it_c", "it_v2", "it_c2",
-                        "bit_v", "bit_he", "bit_e", "bit_hf", "bit_f", "bit_c", "p_mi", "p_all_vi", "p_all_cb", "p_meta", "p_exists">>, 0)
+                        "bit_v", "bit_he", "bit_e", "bit_hf", "bit_f", "bit_c", "p_mi", "p_all_vi", "p_all_cb", "p_meta", "p_exists",
+                        "flags", "vpos_all", "it_e2", "it_he2", "it_f2", "it_hf2", "it_c3", "it_v3", "it_e3", "it_he3", "it_f3", "it_hf3">>, 0)
+      MinOf(T) == CHOOSE x \in T : \A y \in T : x <= y
+      \* the range forms (begin / end pair) of the circulators, on the first live entity of each kind
+      ranges == (IF LiveV(M) = {} THEN <<>> ELSE Ops1(<<"vv_r", "voh_r", "vih_r", "ve_r", "vhf_r", "vf_r", "p_get">>, MinOf(LiveV(M))))
+                \o (IF LiveE(M) = {} THEN <<>> ELSE Ops1(<<"ehf_r", "ef_r", "ec_r">>, MinOf(LiveE(M))) \o Ops1(<<"hehf_r", "hef_r", "hec_r">>, 2 * MinOf(LiveE(M)) + 1))
+                \o (IF LiveF(M) = {} THEN <<>> ELSE Ops1(<<"fv_r", "fhe_r", "fe_r">>, MinOf(LiveF(M))) \o Ops1(<<"hfhe_r", "hfe_r", "hfv_r">>, 2 * MinOf(LiveF(M)) + 1))
+                \o (IF LiveC(M) = {} THEN <<>> ELSE Ops1(<<"che_r", "ce_r", "chf_r", "cf_r">>, MinOf(LiveC(M)))
+                                                    \o (IF mtype = "tet" THEN <<Q1("tet_tv_r", MinOf(LiveC(M)))>> ELSE <<>>)
+                                                    \o (IF mtype = "hex" THEN <<Q1("hex_hv_r", MinOf(LiveC(M))), Q2("hex_csc_r", MinOf(LiveC(M)), 2)>> ELSE <<>>))
+                \o (LET bh == {h \in LiveHF(M) : IncCell(M, h) = -1} IN IF bh = {} THEN <<>> ELSE <<Q1("bhfhf_r", MinOf(bh))>>)
+                \o (LET ih == {h \in LiveHF(M) : IncCell(M, h) # -1} IN IF mtype = "hex" /\ ih # {} THEN <<Q1("hex_hfshf_r", MinOf(ih))>> ELSE <<>>)
       perV(v) == Ops1(<<"vv", "voh", "vih", "ve", "vhf", "vf", "vc", "vc_r", "bnd_v", "val_v", "del_v", "pos", "p_vi", "pc_vi">>, v)
                  \o <<Q2("vv", v, 2), Q2("voh", v, 2), Q2("vc", v, 3)>>
                  \o <<Q2("find_he", v, v)>> \o (IF ((v + 2) % NV(M)) \in LiveV(M) THEN <<Q2("find_he", v, (v + 2) % NV(M))>> ELSE <<>>)
       perE(e) == Ops1(<<"edge", "e_verts", "ehf", "ef", "ec", "bnd_e", "val_e", "del_e", "len_e", "bary_e", "p_ed">>, e)
-      perHE(h) == Ops1(<<"halfedge", "from_to", "he_verts", "hehf", "hef", "hec", "bnd_he", "del_he", "vec_he", "p_heb">>, h)
+      perHE(h) == Ops1(<<"halfedge", "from_to", "he_verts", "opp_he", "hehf", "hef", "hec", "bnd_he", "del_he", "vec_he", "p_heb">>, h)
                   \o <<Q2("hehf", h, 2), Q2("find_he", From(M, h), To(M, h))>>
       perF(f) == Ops1(<<"face", "f_hfs", "fv", "fhe", "fe", "bnd_f", "val_f", "del_f", "bary_f", "p_fs", "pc_fs">>, f)
                  \o <<Q2("is_incident", f, HFHes(M, 2 * f)[1] \div 2), Q2("is_incident", f, 0)>>
@@ -174,21 +186,21 @@ Alphabet(M, mtype) ==
                   \o (IF hasCell(h) THEN <<Q2("adj_hf", h, hes[1]), Q("find_hf_in_cell", 0, 0, IncCell(M, h), vs),
                                            Q("find_he_in_cell", From(M, hes[1]), To(M, hes[1]), IncCell(M, h), <<>>)>>
                                     ELSE <<Q1("bhfhf", h)>>)
-                  \o (IF mtype = "tet" /\ hasCell(h) THEN <<Q1("tet_cv_hf", h), Q1("tet_opp_v", h)>> ELSE <<>>)
+                  \o (IF mtype = "tet" /\ hasCell(h) THEN <<Q1("tet_cv_hf", h), Q1("tet_opp_v", h), Q2("tet_cv_hf_he", h, hes[1])>> ELSE <<>>)
                   \o (IF mtype = "hex" /\ hasCell(h)
                         THEN <<Q2("hex_opp", h, IncCell(M, h)), Q2("hex_orient", h, IncCell(M, h)), Q1("hex_hfshf", h), Q2("hex_adj_sheet", h, hes[1])>>
                         ELSE <<>>)
-                  \o (IF mtype = "hex" /\ ~hasCell(h) THEN <<Q2("hex_adj_surf", h, hes[1])>> ELSE <<>>)
+                  \o (IF mtype = "hex" /\ ~hasCell(h) THEN <<Q2("hex_adj_surf", h, hes[1]), Q2("hex_neigh_out", h, hes[1])>> ELSE <<>>)
       perC(c) == LET hfs == At(S.cells, c)  v1 == HFVs(M, hfs[1])[1] IN
                  Ops1(<<"cell", "cv", "cv_r", "che", "ce", "chf", "cf", "cc", "cc_r", "bnd_c", "val_c", "del_c", "bary_c", "p_cb", "n_verts_in_cell">>, c)
                  \o <<Q2("chf", c, 2), Q2("cv", c, 2)>>
                  \o (IF mtype = "tet" THEN <<Q1("tet_cv", c), Q2("tet_cv_v", c, v1), Q2("tet_opp_hf", c, v1), Q1("tet_tv", c), Q2("tet_tv", c, 2)>> ELSE <<>>)
-                 \o (IF mtype = "hex" THEN <<Q1("hex_dirs", c), Q1("hex_hv", c)>> \o [d \in 1 .. 6 |-> Q2("hex_csc", c, d - 1)] ELSE <<>>)
+                 \o (IF mtype = "hex" THEN <<Q1("hex_dirs", c), Q1("hex_hv", c)>> \o [d \in 1 .. 6 |-> Q2("hex_csc", c, d - 1)] \o [d \in 1 .. 6 |-> Q2("hex_oriented", c, d - 1)] ELSE <<>>)
       deleted == Over((0 .. (NV(M) - 1)) \ LiveV(M), LAMBDA v : <<Q1("del_v", v)>>)
                  \o Over((0 .. (NE(M) - 1)) \ LiveE(M), LAMBDA e : <<Q1("del_e", e), Q1("del_he", 2 * e + 1)>>)
                  \o Over((0 .. (NF(M) - 1)) \ LiveF(M), LAMBDA f : <<Q1("del_f", f), Q1("del_hf", 2 * f)>>)
                  \o Over((0 .. (NC(M) - 1)) \ LiveC(M), LAMBDA c : <<Q1("del_c", c)>>)
-  IN globals \o Over(LiveV(M), perV) \o Over(LiveE(M), perE) \o Over(LiveHE(M), perHE)
+  IN globals \o ranges \o Over(LiveV(M), perV) \o Over(LiveE(M), perE) \o Over(LiveHE(M), perHE)
      \o Over(LiveF(M), perF) \o Over(LiveHF(M), perHF) \o Over(LiveC(M), perC) \o deleted
 
 =============================================================================
